@@ -400,7 +400,11 @@ def run_seed(seed, tier, opts=None):
     if '-n' in case['flags']:
         probes['no_run'] = 1
     ts = [r['t'] for r in hist if 't' in r and r['t'] > 0]
-    h = hashlib.sha1(json.dumps([(r.get('k'), r.get('status'), r.get('rc')) for r in hist]).encode()).hexdigest()
+    h = hashlib.sha1(json.dumps(hist, sort_keys=True).encode('latin1', 'replace')).hexdigest()
+    if any(r.get('k') == 'alarmfire' and r.get('during') == 'mail delivery' for r in hist):
+        probes['deadline_expired_during_mail_delivery'] = 1
+    if case.get('limit_line'):
+        probes['job_with_time_limit'] = 1
     return {'seed': seed, 'viol': viol, 'stats': st, 'probes': probes, 'hash': h,
             'simsec': (max(ts) - min(ts)) if ts else 0,
             'plan_hash': hashlib.sha1(json.dumps(case, sort_keys=True).encode()).hexdigest()[:16],
